@@ -361,3 +361,57 @@ def c02(ctx):
         ctx.cov["binding_selftest"] = {"flipped-result": x["status"]}
     ctx.cov["rule"] = ("sessions = (circuit, input split n0/n1 incl. 0-bit parties, outputs, inputs) x OT flavour; "
                        "non-trivial = two gates and both parties have input bits; compiled programs are all non-trivial")
+
+
+@prop("C04")
+def c04(ctx):
+    thorough = ctx.tier == "thorough"
+    ctx.build()
+    ctx.assumptions += ["OT is ideal: it releases exactly the chosen label (its own bytes are scanned as well)",
+                        "a chance collision of the window test has probability ~ windows^2 * 2^-128",
+                        "R is recomputed from the garbler's recorded randomness and cross-checked against the transcript/OT wires"]
+    # (M) knowledge-set invariants over everything the garbler transmits
+    ctx.tlc_expect_ok("TwoParty", "TwoParty_c04.cfg", name="tp-secrecy-1", timeout=3000,
+                      cfg_text=TP_CFG % ("PSpec", 2, 1, "TRUE", 0, "INVARIANT Secrecy"))
+    ctx.tlc_expect_ok("TwoParty", "TwoParty_c04.cfg", name="tp-secrecy-2", timeout=3000,
+                      cfg_text=TP_CFG % ("PSpec", 2 if not thorough else 3, 2, "FALSE", 0, "INVARIANT Secrecy"))
+    # the model is sensitive: a garbler that also sends the sibling of an own-input label violates NoPair
+    # (checked through the trace spec's self-test below)
+    trace = os.path.join(ctx.tmp, "secrecy_trace.ndjson")
+    res = os.path.join(ctx.tmp, "c04res.ndjson")
+    ctx.run_vh(["c04", "scan", trace, res, 60 if thorough else 12], timeout=3000)
+    n = ctx.absorb(res)
+    # a listed known finding is reported by its KNOWN-FINDING line; its events are taken out of the trace given to
+    # TLC so that every OTHER R-difference still fails the strict invariant
+    from vcheck import load_known
+    known = {k["key"] for k in load_known().get("findings", []) if k["property"] == "C04"}
+    seen = {v["key"] for v in ctx.violations}
+    if "sha2pc:round3:OutputHints" in known and "sha2pc:round3:OutputHints" in seen:
+        rows = [r for r in read_ndjson(trace) if not (r["ev"] == "diff" and r.get("kind") == "sha2pc")]
+        write_ndjson(trace, rows)
+        ctx.notes.append("diff events of the known finding sha2pc:round3:OutputHints were removed before TLC validation")
+    t = ctx.tlc("SecrecyTrace", "SecrecyTrace.cfg", mode="trace", files=[trace], timeout=1500)
+    if t["status"] == "invariant":
+        ctx.violation("trace:" + t.get("which", "Secrecy"), "a recorded transcript violates SecrecyTrace.%s" % t.get("which"), t["out"][-2500:])
+    elif t["status"] != "ok":
+        raise Broken("SecrecyTrace failed: %s\n%s" % (t["status"], t["out"][-3000:]))
+    else:
+        ctx.cov["traces_validated_against_impl"] += n
+    rows = read_ndjson(trace)
+    ctx.cov["trace_events"] = len(rows)
+    ctx.cov["label_windows_identified"] = len([r for r in rows if r["ev"] == "send"])
+    # binding self-test: add the sibling label of a transmitted one
+    r2 = [dict(r) for r in rows]
+    i = next(i for i, r in enumerate(r2) if r["ev"] == "send")
+    sib = dict(r2[i])
+    sib["which"] = 1 - sib["which"]
+    r2.insert(i + 1, sib)
+    p = os.path.join(ctx.tmp, "selftest", "secrecy_trace.ndjson")
+    os.makedirs(os.path.dirname(p), exist_ok=True)
+    write_ndjson(p, r2)
+    x = ctx.tlc("SecrecyTrace", "SecrecyTrace.cfg", mode="trace", files=[p], name="secrecy-selftest")
+    if x["status"] != "invariant":
+        raise Broken("binding self-test: SecrecyTrace accepted a transcript carrying both labels of a wire")
+    ctx.cov["binding_selftest"] = {"both-labels": x["status"]}
+    ctx.cov["rule"] = ("one evaluation = one complete session transcript scanned at every byte offset; non-trivial = both parties "
+                       "have input bits (OT is used) or a streaming / sha2pc session")
